@@ -1096,3 +1096,322 @@ func wirePaddingOutcomes(wc *wireCtx, r *Report, prop string) {
 		}
 	}
 }
+
+// ---- C07/C17: bracket balance of the emitted text ----
+
+type balance struct{ curly, round, square int }
+
+func (a balance) add(b balance) balance {
+	return balance{a.curly + b.curly, a.round + b.round, a.square + b.square}
+}
+func (a balance) String() string { return fmt.Sprintf("{%+d (%+d [%+d", a.curly, a.round, a.square) }
+
+// textBalance: net bracket count of a piece of constant text.
+func textBalance(s string) balance {
+	var b balance
+	for _, c := range s {
+		switch c {
+		case '{':
+			b.curly++
+		case '}':
+			b.curly--
+		case '(':
+			b.round++
+		case ')':
+			b.round--
+		case '[':
+			b.square++
+		case ']':
+			b.square--
+		}
+	}
+	return b
+}
+
+type balanceCtx struct {
+	w     *World
+	m     *matrix
+	memo  map[*ssa.Function]*balance // nil entry while in progress / undecidable
+	state map[*ssa.Function]int      // 0 unknown, 1 in progress, 2 done, 3 undecidable
+	why   map[*ssa.Function]string
+}
+
+// valueBalance: the net bracket count of the text a value denotes: constants, concatenations, Sprintf formats, and the result of
+// repo helpers (their own net, when it is the same on every path). ok=false when a part cannot be judged.
+func (bc *balanceCtx) valueBalance(v ssa.Value, depth int) (balance, bool) {
+	if depth > 16 {
+		return balance{}, false
+	}
+	switch x := v.(type) {
+	case *ssa.Const:
+		if s, ok := constString(x); ok {
+			return textBalance(s), true
+		}
+		return balance{}, true
+	case *ssa.BinOp:
+		if x.Op == token.ADD {
+			a, ok1 := bc.valueBalance(x.X, depth+1)
+			b, ok2 := bc.valueBalance(x.Y, depth+1)
+			return a.add(b), ok1 && ok2
+		}
+		return balance{}, true
+	case *ssa.MakeInterface:
+		return bc.valueBalance(x.X, depth+1)
+	case *ssa.ChangeType:
+		return bc.valueBalance(x.X, depth+1)
+	case *ssa.Convert:
+		return bc.valueBalance(x.X, depth+1)
+	case *ssa.Phi:
+		var first *balance
+		for _, e := range x.Edges {
+			b, ok := bc.valueBalance(e, depth+1)
+			if !ok {
+				return balance{}, false
+			}
+			if first == nil {
+				first = &b
+			} else if *first != b {
+				return balance{}, false
+			}
+		}
+		if first == nil {
+			return balance{}, true
+		}
+		return *first, true
+	case *ssa.Call:
+		f := x.Call.StaticCallee()
+		if f == nil {
+			if x.Call.IsInvoke() {
+				return balance{}, true // GetType(), GetText(): names and numbers
+			}
+			return balance{}, false
+		}
+		name := f.String()
+		switch {
+		case name == "fmt.Sprintf" || name == "fmt.Sprint" || name == "fmt.Sprintln":
+			total := balance{}
+			okAll := true
+			for _, a := range x.Call.Args {
+				b, ok := bc.valueBalance(a, depth+1)
+				total = total.add(b)
+				okAll = okAll && ok
+			}
+			return total, okAll
+		case strings.HasPrefix(name, "strings.") || strings.HasPrefix(name, "strconv.") || strings.Contains(name, "strcase."):
+			total := balance{}
+			okAll := true
+			for _, a := range x.Call.Args {
+				if !isStringish(a.Type()) {
+					continue
+				}
+				b, ok := bc.valueBalance(a, depth+1)
+				total = total.add(b)
+				okAll = okAll && ok
+			}
+			return total, okAll
+		case bc.w.isSubjectFunc(f) && f.Blocks != nil:
+			if !isStringish(x.Type()) {
+				return balance{}, true
+			}
+			b := bc.funcBalance(f)
+			if b == nil {
+				return balance{}, false
+			}
+			total := *b
+			// text handed in and passed through to the result (indent helpers and the like) counts once per use
+			for i, p := range f.Params {
+				if i >= len(x.Call.Args) || !isStringish(p.Type()) {
+					continue
+				}
+				uses := bc.paramUses(f, p)
+				if uses == 0 {
+					continue
+				}
+				ab, ok := bc.valueBalance(x.Call.Args[i], depth+1)
+				if !ok {
+					return balance{}, false
+				}
+				if uses > 1 && ab != (balance{}) {
+					return balance{}, false
+				}
+				total = total.add(ab)
+			}
+			return total, true
+		}
+		return balance{}, true
+	case *ssa.Slice:
+		// variadic argument array: sum of the stored elements
+		if al, ok := x.X.(*ssa.Alloc); ok {
+			total := balance{}
+			okAll := true
+			for _, ref := range *al.Referrers() {
+				if ia, ok := ref.(*ssa.IndexAddr); ok {
+					for _, r2 := range *ia.Referrers() {
+						if st, ok := r2.(*ssa.Store); ok && st.Addr == ssa.Value(ia) {
+							b, ok := bc.valueBalance(st.Val, depth+1)
+							total = total.add(b)
+							okAll = okAll && ok
+						}
+					}
+				}
+			}
+			return total, okAll
+		}
+		return balance{}, true
+	}
+	return balance{}, true // loads, parameters, field reads: names, numbers, type spellings
+}
+
+// paramUses: in how many emitted pieces of fn the parameter occurs.
+func (bc *balanceCtx) paramUses(fn *ssa.Function, p *ssa.Parameter) int {
+	n := 0
+	for _, s := range bc.m.sitesOf(fn) {
+		seen := map[ssa.Value]bool{}
+		var has func(v ssa.Value, d int) bool
+		has = func(v ssa.Value, d int) bool {
+			if v == nil || seen[v] || d > 12 {
+				return false
+			}
+			seen[v] = true
+			if v == ssa.Value(p) {
+				return true
+			}
+			switch x := v.(type) {
+			case *ssa.BinOp:
+				return has(x.X, d+1) || has(x.Y, d+1)
+			case *ssa.Phi:
+				for _, e := range x.Edges {
+					if has(e, d+1) {
+						return true
+					}
+				}
+			case *ssa.Call:
+				for _, a := range x.Call.Args {
+					if has(a, d+1) {
+						return true
+					}
+				}
+			case *ssa.MakeInterface:
+				return has(x.X, d+1)
+			case *ssa.Convert:
+				return has(x.X, d+1)
+			case *ssa.Slice:
+				if al, ok := x.X.(*ssa.Alloc); ok {
+					for _, ref := range *al.Referrers() {
+						if ia, ok := ref.(*ssa.IndexAddr); ok {
+							for _, r2 := range *ia.Referrers() {
+								if st, ok := r2.(*ssa.Store); ok && has(st.Val, d+1) {
+									return true
+								}
+							}
+						}
+					}
+				}
+			}
+			return false
+		}
+		if has(s.val, 0) {
+			n++
+		}
+	}
+	return n
+}
+
+// funcBalance: the net bracket count of everything fn emits (into its builder / accumulator / result), provided it is the same on
+// every path; nil when it is path dependent or cannot be judged.
+func (bc *balanceCtx) funcBalance(fn *ssa.Function) *balance {
+	switch bc.state[fn] {
+	case 2:
+		return bc.memo[fn]
+	case 1, 3:
+		return nil
+	}
+	bc.state[fn] = 1
+	delta := map[*ssa.BasicBlock]balance{}
+	ok := true
+	for _, s := range bc.m.sitesOfX(fn, true) {
+		b, okv := bc.valueBalance(s.val, 0)
+		if !okv {
+			ok = false
+			bc.why[fn] = "a piece of text at " + bc.w.instrPos(s.instr) + " cannot be judged"
+		}
+		delta[s.instr.Block()] = delta[s.instr.Block()].add(b)
+	}
+	if !ok {
+		bc.state[fn] = 3
+		return nil
+	}
+	// forward propagation: all paths into a block must agree
+	in := map[*ssa.BasicBlock]*balance{}
+	zero := balance{}
+	in[fn.Blocks[0]] = &zero
+	work := []*ssa.BasicBlock{fn.Blocks[0]}
+	for len(work) > 0 {
+		b := work[0]
+		work = work[1:]
+		out := in[b].add(delta[b])
+		for _, sc := range b.Succs {
+			if cur, seen := in[sc]; seen {
+				if *cur != out {
+					bc.state[fn] = 3
+					bc.why[fn] = fmt.Sprintf("the paths into the block at %s have emitted %s and %s", bc.w.instrPos(sc.Instrs[0]), cur, out)
+					return nil
+				}
+				continue
+			}
+			o := out
+			in[sc] = &o
+			work = append(work, sc)
+		}
+	}
+	var result *balance
+	for _, b := range fn.Blocks {
+		if _, isRet := b.Instrs[len(b.Instrs)-1].(*ssa.Return); !isRet || in[b] == nil {
+			continue
+		}
+		out := in[b].add(delta[b])
+		if result == nil {
+			result = &out
+		} else if *result != out {
+			bc.state[fn] = 3
+			bc.why[fn] = fmt.Sprintf("two returns have emitted %s and %s", result, out)
+			return nil
+		}
+	}
+	if result == nil {
+		result = &zero
+	}
+	bc.state[fn] = 2
+	bc.memo[fn] = result
+	return result
+}
+
+// wireBracketBalance: every function under a generator that emits text emits the same net number of brackets on all of its paths
+// (an if/else whose arms differ, or a loop body that is not neutral, produces unbalanced output for some input), and the functions
+// that produce whole files are balanced.
+func wireBracketBalance(w *World, wc *wireCtx, r *Report, prop string, roles map[string]bool) {
+	rule := prop + "/bracket-balance"
+	bc := &balanceCtx{w: w, m: wc.m, memo: map[*ssa.Function]*balance{}, state: map[*ssa.Function]int{}, why: map[*ssa.Function]string{}}
+	n := 0
+	for _, ga := range anchorTable {
+		for _, fn := range wc.anchors[ga.Lang]["own"] {
+			if len(wc.m.sitesOf(fn)) == 0 {
+				continue
+			}
+			isTest := roleOf(fn) == "test"
+			if !(roles["test"] && roles["code"]) && isTest != roles["test"] {
+				continue
+			}
+			n++
+			key := fmt.Sprintf("%s: %s emits the same brackets on every path", ga.Lang, fnKey(fn))
+			if b := bc.funcBalance(fn); b != nil {
+				r.pass(rule, key, w.pos(fn.Pos()), b.String())
+			} else if bc.state[fn] == 3 && strings.HasPrefix(bc.why[fn], "a piece") {
+				r.pass(rule, key, w.pos(fn.Pos()), "not judged: "+bc.why[fn])
+			} else {
+				r.fail(rule, key, w.pos(fn.Pos()), "the emitted text is not bracket-balanced in the same way on all paths: "+bc.why[fn])
+			}
+		}
+	}
+	_ = n
+}
